@@ -52,10 +52,65 @@ def arg(tok):
         return foreign[(kind, v)]
     if kind == 'b':
         return bool(v) if v in (0, 1) else v
-    if kind == 'u':
+    if kind == 'u':                      # a numpy integer scalar of one of the widths that can hold the value
         import numpy as np
-        return np.uint16(v) if 0 <= v < 2 ** 16 else np.int64(v) if -2 ** 63 <= v < 2 ** 63 else v
+        fits = [t for t in (np.uint8, np.int8, np.uint16, np.int16, np.uint32, np.int32, np.uint64, np.int64)
+                if np.iinfo(t).min <= v <= np.iinfo(t).max]
+        return fits[(v * 7 + len(held)) % len(fits)](v) if fits else v
     raise ValueError('bad argument tag ' + tok)
+
+
+live = {}            # key -> {'cls', 'mask', 'held', 'pre'}: several classes stay alive side by side in one interpreter
+cur_key = None
+mask_count = 0
+
+
+def make_pre(cls):
+    """adapters declared now, i.e. before the values of the coming history are seen; used later by `AB`"""
+    out = {}
+    for con in (construct.Int8ul, construct.Int16ul, construct.Int64sl):
+        for strict in (False, True):
+            try:
+                out[(con, strict)] = AutoEnum(con, cls, raise_on_unrecognized=strict)
+            except Exception as e:
+                out[(con, strict)] = e
+    return out
+
+
+def enter(key, cls, fresh):
+    global cur, cur_key, mask
+    if cur_key is not None and cur_key in live:
+        live[cur_key].update(mask=mask, held=dict(held))
+    if fresh:
+        live[key] = {'cls': cls, 'mask': None, 'held': {}, 'pre': make_pre(cls)}
+    cur_key, cur = key, live[key]['cls']
+    mask = live[key]['mask']
+    held.clear()
+    held.update(live[key]['held'])
+
+
+def table_line(cls):
+    ok = not any(k.startswith(type(cls).UNRECOGNIZED_PREFIX) for k in cls.__members__)
+    return 'ok %d %d' % (len(cls.__members__), ok and len(cls.__members__) > 0)
+
+
+def held_check(cls):
+    """members handed out earlier are still what they were, and converting their integer again gives the same object"""
+    bad = []
+    for v, m in list(held.items()):
+        if int(m) != v or m.value != v:
+            bad.append('value-of-%x' % v)
+        flag, b = check_member(cls, m)
+        bad += b
+        try:
+            again = cls(v, raise_on_unrecognized=False)
+            if again is not m:
+                bad.append('another-object-for-%x' % v)
+            if bool(again.is_unrecognized()) != flag:
+                bad.append('flag-of-%x' % v)
+        except Exception as e:
+            bad.append('%s-for-%x' % (type(e).__name__, v))
+    return 'HC %d' % len(held) + (' BAD:' + '+'.join(sorted(set(bad))[:4]) if bad else '')
 
 
 def nm(s):
@@ -142,7 +197,7 @@ def listing(ms):
     return 'L %s | SL %s' % (s, s)
 
 
-def adapter(cls, v, strict):
+def adapter(cls, v, strict, declared_before=False):
     if 0 <= v < 2 ** 8:
         con, raw = construct.Int8ul, v.to_bytes(1, 'little')
     elif 0 <= v < 2 ** 16:
@@ -152,17 +207,28 @@ def adapter(cls, v, strict):
     else:
         return attempt(cls, lambda: cls(v, raise_on_unrecognized=strict))
     try:
-        ad = AutoEnum(con, cls, raise_on_unrecognized=strict)      # construct reads the members by iterating the class
+        if declared_before:
+            ad = live[cur_key]['pre'][(con, strict)]
+            if isinstance(ad, Exception):
+                raise ad
+        else:
+            ad = AutoEnum(con, cls, raise_on_unrecognized=strict)  # construct reads the members by iterating the class
         r = ad.parse(raw)
     except Exception as e:
         return 'X %s | SR' % type(e).__name__
-    line = member_out(cls, r)
     try:
-        back = ad.build(r)
-    except Exception as e:
-        back = type(e).__name__
-    if back != raw:
-        line += ' BAD:rebuild=%r' % (back,)
+        held[int(r)] = r
+    except Exception:
+        pass
+    line = member_out(cls, r)
+    for what, obj in (('member', r), ('int', v)):                  # encode the member and the plain integer
+        try:
+            back = ad.build(obj)
+        except Exception as e:
+            back = type(e).__name__
+        if back != raw:
+            line += ' BAD:rebuild-from-%s=%r' % (what, back)
+            break
     return line
 
 
@@ -236,7 +302,7 @@ def items_of(cls, tok):
 
 
 def do(line):
-    global cur, mask, syn_count
+    global cur, mask, syn_count, mask_count
     w = line.split()
     c = w[0]
     if c == 'E':
@@ -252,20 +318,31 @@ def do(line):
         except Exception:
             cur = None
             return 'none'
-        cur, mask = obj, None
-        held.clear()
-        ok = not any(k.startswith(type(obj).UNRECOGNIZED_PREFIX) for k in obj.__members__)
-        return 'ok %d %d' % (len(obj.__members__), ok)
+        enter(key, obj, True)
+        return table_line(obj)
     if c == 'T':
         ms = members_of(w[1])
         syn_count += 1
         body = ''.join('    %s = %d\n' % (n, v) for n, v in ms) or '    pass\n'
         ns = {'IntEnum': IntEnum, '__name__': __name__}
         exec('class Syn%d(IntEnum):\n%s' % (syn_count, body), ns)
-        cur, mask = ns['Syn%d' % syn_count], None
-        held.clear()
-        ok = not any(k.startswith(type(cur).UNRECOGNIZED_PREFIX) for k in cur.__members__)
-        return 'ok %d %d' % (len(cur.__members__), ok)
+        enter('syn%d' % syn_count, ns['Syn%d' % syn_count], True)
+        return table_line(cur)
+    if c == 'SW':
+        if w[1] not in live:
+            return 'none'
+        enter(w[1], None, False)
+        return table_line(cur)
+    if c == 'EM':                       # the current mask helper class as an enumeration in its own right
+        if mask is None:
+            return 'nomask'
+        mask_count += 1
+        enter('mask%d' % mask_count, mask, True)
+        return table_line(cur)
+    if c == 'SO':
+        return 'ok'
+    if c == 'HC':
+        return held_check(cur)
     cls = cur
     if c == 'C':
         v, strict = arg(w[1]), w[2] == '1'
@@ -276,10 +353,13 @@ def do(line):
         toks = w[1].split(',') if w[1] not in ('-', '') else []
         return iterate_during(cls, iter if c == 'IT' else reversed, toks)
     if c == 'P':                  # the same conversion with a numpy integer (what the file index passes)
-        import numpy as np
-        v, strict = unhex(w[1]), w[2] == '1'
-        nv = np.uint16(v) if 0 <= v < 2 ** 16 else np.int64(v) if -2 ** 63 <= v < 2 ** 63 else v
+        strict = w[2] == '1'
+        nv = arg('u:' + w[1])
         return attempt(cls, lambda: cls(nv, raise_on_unrecognized=strict))
+    if c == 'AB':
+        return adapter(cls, unhex(w[1]), w[2] == '1', declared_before=True)
+    if c == 'GA':                       # attribute access: one more public path to a defined member
+        return attempt(cls, lambda: getattr(cls, nm(w[1])))
     if c == 'A':
         return adapter(cls, unhex(w[1]), w[2] == '1')
     if c == 'N':
@@ -321,7 +401,8 @@ def do(line):
                 for part in qual.split('.'):
                     obj = getattr(obj, part)
                 objs.append(obj)
-            mask, cur = objs
+            enter(ekey, objs[1], True)
+            mask = objs[0]
         except Exception:
             mask = None
             return 'none'
